@@ -130,3 +130,32 @@ _add("C13", "the sweep precedes size eviction in maintenance (C13.order).")
 _add("C15", "meta-word constants and SWAR helpers agree (C15.swar); bucket index, mask and hasher belong to one table and tag and bucket come from one hash (C15.hashidx); a chain is snapshotted under one hold of its root lock (C15.range).")
 _add("C16", "mask and buffer are read after the producer index the CAS expects (C16.reserve).")
 _add("C18", "policy.access / policy.add record the key in the sketch exactly once on every path and every drained read reaches access (C18.record).")
+
+# ---- rounds 6 and 7 ----
+def _add67(pid, text, tech=None):
+    CLAIMED[pid]["text"] = CLAIMED[pid]["text"].rstrip() + " Rounds 6-7: " + text
+    if tech:
+        CLAIMED[pid]["technique"] = CLAIMED[pid]["technique"].rstrip() + "; " + tech
+
+_IT = "ITERSIM (abstract interpretation of the iterator's type-checked syntax tree over symbolic sources of bounded length, every outcome of the liveness / expiry tests, flags, comparators and consumer stop points enumerated by choice replay)"
+_ITX = "every iterator of the cache API (All, Keys, Values, Hottest, Coldest) yields, for each element of each source it draws from - the table's Range or all three policy queues - that is alive and unexpired, exactly one value, the projection its signature promises; nothing for a failing element, nothing untested, nothing after the consumer stopped; every complete run walks the table or every queue (C01.iterate)"
+_add67("C01", _ITX + "; a panicking compute callback leaves the mapping unchanged (C01.step, also listed under C07 / C15); the reload record carries the old value of its own key (C11.reloadarg listed here).", _IT)
+_add67("C02", "singleflight.delete has no counter / flag shortcut (C09.cancel listed here); the key hash respects == (C18.hash listed here).")
+_add67("C03", _ITX + "; the main table's Range is only ever called with a filtering callback.", _IT)
+_add67("C04", "the eviction loop is left only within the bound or with both cursors exhausted (C04.exit); EstimatedSize / WeightedSize / GetMaximum read the bookkeeping they are named after (C05.views).")
+_add67("C05", _ITX + "; the sequence combinators of package xiter hand on every element of every input exactly once (C05.combine) and the list iterators yield exactly the members of the list (C05.walk); a task that bypasses the write buffer is run only after the buffer was drained (C16.direct); the sweep relinks nothing by hand (C13.nodrop census); the task handed out carries exactly its four arguments (C05.gettask); policy.delete / updateNode unlink from the named queue and release the weight once (C05.polunlink).", _IT + "; interprocedural dominance of the draining step with constant-argument / flag correlation")
+_add67("C06", "a resize copies a chain only under its root lock, so it waits for a computation in flight (C15.copylock listed here); who uses the cause Overflow records the eviction (C20.autocause); direct tasks after the drain (C16.direct).")
+_add67("C07", "the wheel is advanced to a reading of the cache's own clock on every path and through every parameter (C13.sweeptime); the value returned by evictFromWindow is the first node really moved (C07.window); panic => mapping unchanged (C01.step).")
+_add67("C08", "the loader is never handed to or captured by a function started with go (C08.sync); wait blocks on every path and cancel releases exactly once (C08.wait).")
+_add67("C09", "a loaded value is an argument of a table write only inside the installer afterDeleteCall and its private helpers (C09.install); volunteered keys are told apart by membership in the bulk map (C10.distribute listed here).")
+_add67("C10", "the function adapters of the loader interfaces forward (ctx, key) (C10.adapter).")
+_add67("C11", "outside the reload handed to the executor, Refresh / BulkRefresh reach no store of an expiration deadline and no ExpireAfterRead (C11.quiet).", "reachability census that skips the closures / method values handed to the executor")
+_add67("C12", "the expiry test of an entry and the base of its new deadline are the same clock sample (C12.sat); C11.quiet listed here.")
+_add67("C13", "wheel time advanced on every returning path (C13.advance); findBucket files a timer under the first level whose next span exceeds the remaining duration, in the slot of its tick (C13.findbucket); sweep time is the cache clock's (C13.sweeptime); deadline arithmetic saturates (C12.sat / C12.hook listed here); direct tasks after the drain (C16.direct).")
+_add67("C14", "the drain-cap marker is stored only inside maintenance (C14.transitions); the delete task reports exactly once whatever the node's state (C05.runTask listed here).")
+_add67("C15", _ITX + "; only addSize / addSizePlain write a size stripe and a resize credits the new table with what each copier reports (C15.sizecopy); a resize writes nothing into the chain it copies from (C15.srcreadonly).", _IT)
+_add67("C16", "chunk geometry is self-consistent (C16.geometry); power-of-two helpers (C16.math); every value TryPop can hand out was itself compared with the jump marker, also when the slot is re-read after waiting for its producer (C16.pop); a task that bypasses the buffer runs only after the buffer was drained (C16.direct).")
+_add67("C17", "the ring's counters only grow: tail by CAS(t, t+1), head by a store computed from its own load, slots emptied only by the function that advances head (C17.monotone); DrainTo drains every allocated ring 0..len-1 and returns early only without a table (C17.drainall); the doubled stripe table is the tested one (C17.bound); maintenance drains on every path past a negative skipReadBuffer with onAccess as consumer (C17.delivered); a fresh ring holds exactly its first element (C17.init).")
+_add67("C18", "ensureCapacity precedes the recording of the arrival on every path of policy.add (C18.record); the admission contest gets the first node that really left the window (C18.handoff); every counter is updated on every recording (C18.index).")
+_add67("C19", _ITX + " - SaveCacheTo draws from Hottest; C05.combine / C05.walk listed here; a file opened with os.OpenFile for saving carries O_TRUNC or O_EXCL (C19.file).", _IT)
+_add67("C20", "every type assertion on the configured recorder that feeds the withStats decision asserts the concrete *stats.NoopRecorder (C20.recorder); every function that uses the cause Overflow reaches RecordEviction (C20.autocause); loader never started with go (C08.sync listed here).")
